@@ -277,7 +277,7 @@ Print Assumptions C01_whfast_recalculate_unsynchronized.
      non-zero dt it was called with); the corner dt_last_done = 0 is proved separately here: no sub-step is requested, the ODE time stays;
    - C01_ias15_controller_contract is stated for the forward direction (dt_done > 0, candidate > 0, min_dt >= 0); backward runs are the
      mirror image in the code (fabs / copysign) and are covered by the bit-exact controller correspondence (dt0 < 0 runs), not by a theorem;
-     dt_done = 0 is outside it: the library divides by dt_done (IAS15 step with dt = 0 gives NaN: known finding order:corner/dt=0/ias15);
+     dt_done = 0 is outside it and outside C01's domain (a zero step advances nothing; integrate() refuses dt = 0): the library divides by dt_done there (IAS15 step() with dt = 0 gives NaN);
    - C01_jerk_is_directional_derivative and C01_hybrid_switching assume r <> 0 (distinct positions): at coincident positions the code
      divides by zero (inf/NaN accelerations), which is outside the collision-free regime C01 quantifies over;
    - the order theorems are statements about words and do not depend on N; N = 0, 1, 2, zero masses, e = 0, inc = pi, e = 0.9, extreme
